@@ -11,9 +11,30 @@
   `ZlibNaming`) are proved for every decoding table of /repo in TieC02.  zlib is an external call:
   `zlib c n` stands for `decompressobj().decompress(c, n)`, `inflate` for the fully inflated payload;
   the one assumption relating them is stated where it is used (`hz`).
+
+  Fourth wave (second half of the file):
+  * the error side (`data_*_unreachable`, `data_nobits_oversize`, `data_compressed_bad_stream`,
+    `data_compressed_size_unaskable`, `data_compressed_offset_unreachable`, `data_nobits_compressed`,
+    `segment_data_unreachable`, `interp_name_unreachable` / `_unterminated`, `get_string_unreachable`);
+  * section in segment against the WHOLE binutils macro (`macroFull64`, Spec/ContentsMacro.lean):
+    `in_segment_eq_C_macro_full_partial` extends the first partial theorem to everywhere the `.tbss`
+    size rule and the PT_DYNAMIC / PT_NOTE empty-section clause are inert, `in_segment_eq_C_macro_iff`
+    shows that domain is exact, and `in_segment_lacks_tbss_rule` / `in_segment_lacks_empty_edge_clause`
+    exhibit the two clauses the code does not implement;
+  * whole files (`file_*`): composition with C01 — for every well-formed description `d` (`wfZ`) and
+    ANY byte string that carries it (`Layout`), `ELFFile(BytesIO(bytes))` followed by `get_section(i)` /
+    `get_segment(j)` and the accessor gives what the description assigns.
+  Still correspondence-only (model = code checked by the harness, no theorem): zlib itself (a parameter);
+  UTF-8 decoding of strings / paths (the model compares bytes); MemoryError for SHT_NOBITS sizes between
+  2^20 and 2^63 (not modelled); a compressed section whose `sh_size` is smaller than its compression
+  header (the code then reads to the end of the file); truncated / substituted images (the `raw` stream).
 -/
 import PyElf.Proofs.Contents
+import PyElf.Proofs.ContentsErrors
+import PyElf.Proofs.ContentsMacro
+import PyElf.Proofs.ContentsFile
 import PyElf.Props.TieC02
+import PyElf.Props.C01
 namespace PyElf.Props.C02
 open PyElf PyElf.Spec PyElf.Model PyElf.Proofs
 open PyElf.Spec.C02 PyElf.Model.C02 PyElf.Proofs.C02
@@ -241,5 +262,424 @@ theorem naming_holds (m : String) (hm : m ∈ Spec.machineClasses) :
     ZlibNaming (decCOf Model.elfEnv) :=
   ⟨TieC02.ptype_naming _ (TieC02.tables_cover m hm).1, TieC02.nobits_naming _ (TieC02.tables_cover m hm).2,
    TieC02.zlib_naming⟩
+
+/-! ## the error side
+
+  Outside the domain of the exactness theorems the accessors fail; each failure the code can produce
+  on a decoded header is a theorem.  (`data_compressed` above already has: declared size ≠ inflated
+  size → ELFCompressionError; compression type other than ELFCOMPRESS_ZLIB → an error.) -/
+
+/-- a section at an offset no stream position can hold (`sh_offset ≥ 2^63`): `seek` raises OverflowError -/
+theorem data_raw_unreachable (zlib : Bytes → Nat → R Bytes) (env : Env) (S : ElfStructs) (file : Bytes) {decT : Nat → Val}
+    (hT : NobitsNaming decT) (sh : Val) (s : Sec) (hsh : IsShdr decT sh s)
+    (hnb : s.nobits = false) (hc : s.compressed = false) (ho : 2 ^ 63 ≤ s.offset) :
+    ∃ o, sectionNew env S shFlags file sh = .ok o ∧ sectionData zlib S file o = .error .overflowError :=
+  ⟨plainObj sh s, sectionNew_plain env S file hsh hc, sectionData_raw_offset_overflow zlib S file hT hsh hnb ho⟩
+
+/-- ... or of a size no `read` can be asked for -/
+theorem data_raw_oversize (zlib : Bytes → Nat → R Bytes) (env : Env) (S : ElfStructs) (file : Bytes) {decT : Nat → Val}
+    (hT : NobitsNaming decT) (sh : Val) (s : Sec) (hsh : IsShdr decT sh s)
+    (hnb : s.nobits = false) (hc : s.compressed = false) (ho : s.offset < 2 ^ 63) (hs : 2 ^ 63 ≤ s.size) :
+    ∃ o, sectionNew env S shFlags file sh = .ok o ∧ sectionData zlib S file o = .error .overflowError :=
+  ⟨plainObj sh s, sectionNew_plain env S file hsh hc, sectionData_raw_size_overflow zlib S file hT hsh hnb ho hs⟩
+
+/-- a SHT_NOBITS section declaring `sh_size ≥ 2^63`: `b'\0' * n` raises OverflowError -/
+theorem data_nobits_oversize (zlib : Bytes → Nat → R Bytes) (env : Env) (S : ElfStructs) (file : Bytes) {decT : Nat → Val}
+    (hT : NobitsNaming decT) (sh : Val) (s : Sec) (hsh : IsShdr decT sh s)
+    (hnb : s.nobits = true) (hc : s.compressed = false) (hs : 2 ^ 63 ≤ s.size) :
+    ∃ o, sectionNew env S shFlags file sh = .ok o ∧ sectionData zlib S file o = .error .overflowError :=
+  ⟨plainObj sh s, sectionNew_plain env S file hsh hc, sectionData_nobits_overflow zlib S file hT hsh hnb hs⟩
+
+example : (⟨1, 0, 0, 2 ^ 63, 0, 1⟩ : Sec).nobits = false ∧ (⟨1, 0, 0, 2 ^ 63, 0, 1⟩ : Sec).compressed = false := by decide
+
+/-- a section flagged compressed whose compression header lies at `sh_offset ≥ 2^63`: the section
+    object cannot be made (`struct_parse` wraps the unrepresentable offset into ELFParseError) -/
+theorem data_compressed_offset_unreachable (env : Env) (S : ElfStructs) (file : Bytes) {decT : Nat → Val}
+    (sh : Val) (s : Sec) (hsh : IsShdr decT sh s) (hc : s.compressed = true) (ho : 2 ^ 63 ≤ s.offset) :
+    sectionNew env S shFlags file sh = .error .elfParseError :=
+  sectionNew_offset_overflow env S file hsh hc ho
+
+/-- a compressed section whose stream zlib rejects is rejected with zlib's error; one whose payload
+    starts beyond what `seek` reaches, or whose declared size `decompress` cannot be asked for
+    (`ch_size + 1 ≥ 2^63`), with OverflowError -/
+theorem data_compressed_bad_stream (zlib : Bytes → Nat → R Bytes) (S : ElfStructs) (cls : Nat) (file : Bytes)
+    {decT decC : Nat → Val} (hT : NobitsNaming decT) (hC : ZlibNaming decC) (sh : Val) (s : Sec) (ch : Chdr)
+    (hsh : IsShdr decT sh s) (hnb : s.nobits = false) (hc : s.compressed = true)
+    (hty : ch.chType = ELFCOMPRESS_ZLIB) (hsz : S.Elf_Chdr.sizeof = some (chdrSize cls)) :
+    (∀ e, s.offset + chdrSize cls < 2 ^ 63 → chdrSize cls ≤ s.size → s.size < 2 ^ 63 → ch.chSize + 1 < 2 ^ 63 →
+      zlib (payload cls file s) (ch.chSize + 1) = .error e →
+      sectionData zlib S file (zObj decC sh s ch) = .error e) ∧
+    (2 ^ 63 ≤ s.offset + chdrSize cls → sectionData zlib S file (zObj decC sh s ch) = .error .overflowError) ∧
+    (s.offset + chdrSize cls < 2 ^ 63 → chdrSize cls ≤ s.size → s.size < 2 ^ 63 → 2 ^ 63 ≤ ch.chSize + 1 →
+      sectionData zlib S file (zObj decC sh s ch) = .error .overflowError) :=
+  ⟨fun e ho hfull hs hw hz => sectionData_zlib_err zlib S cls file hT hC hsh hnb hc hty hsz ho hfull hs hw e hz,
+   fun ho => sectionData_zlib_offset_overflow zlib S cls file hT hC hsh hnb hc hty hsz ho,
+   fun ho hfull hs hw => sectionData_zlib_want_overflow zlib S cls file hT hC hsh hnb hc hty hsz ho hfull hs hw⟩
+
+/-- SHT_NOBITS together with SHF_COMPRESSED — a combination the gABI forbids ("SHF_COMPRESSED cannot
+    be applied to sections of type SHT_NOBITS"), so outside the property's quantifier; what the code
+    does with it: it reads a compression header at `sh_offset` and answers a zero block of ITS
+    `ch_size` (no error) -/
+theorem data_nobits_compressed (zlib : Bytes → Nat → R Bytes) (env : Env) (S : ElfStructs) (file : Bytes)
+    {decT decC : Nat → Val} (hT : NobitsNaming decT) (sh chv : Val) (s : Sec) (ch : Chdr) (p : Nat)
+    (hsh : IsShdr decT sh s) (hnb : s.nobits = true) (hc : s.compressed = true)
+    (hparse : structParseAt env S.Elf_Chdr file s.offset = .ok (chv, p)) (hch : IsChdr decC chv ch)
+    (hs : ch.chSize < 2 ^ 63) :
+    ∃ o, sectionNew env S shFlags file sh = .ok o ∧ sectionData zlib S file o = .ok (List.replicate ch.chSize 0) :=
+  ⟨zObj decC sh s ch, sectionNew_compressed env S file hsh hc hparse hch, sectionData_nobits_z zlib S file hT hsh hnb hs⟩
+
+example : (⟨8, 0x800, 0, 0x40, 0, 1⟩ : Sec).nobits = true ∧ (⟨8, 0x800, 0, 0x40, 0, 1⟩ : Sec).compressed = true := by decide
+
+/-- a segment whose extent no `seek` / `read` reaches -/
+theorem segment_data_unreachable {decP : Nat → Val} (file : Bytes) (ph : Val) (g : Seg) (hph : IsPhdr decP ph g)
+    (h : 2 ^ 63 ≤ g.offset ∨ (g.offset < 2 ^ 63 ∧ 2 ^ 63 ≤ g.filesz)) :
+    segmentData file ph = .error .overflowError := by
+  rcases h with h | ⟨h1, h2⟩
+  · exact segmentData_offset_overflow file hph h
+  · exact segmentData_size_overflow file hph h1 h2
+
+/-- the interpreter path of a segment at an unreachable offset, or without a NUL before the end of the
+    file, is an ELFParseError -/
+theorem interp_name_unreachable (env : Env) {decP : Nat → Val} (file : Bytes) (ph : Val) (g : Seg)
+    (hph : IsPhdr decP ph g) (ho : 2 ^ 63 ≤ g.offset) : getInterpName env file ph = .error .elfParseError :=
+  getInterpName_offset_overflow env file hph ho
+
+theorem interp_name_unterminated (env : Env) {decP : Nat → Val} (file : Bytes) (ph : Val) (g : Seg)
+    (hph : IsPhdr decP ph g) (ho : g.offset < 2 ^ 63) (hs : interpName file g = none) :
+    getInterpName env file ph = .error .elfParseError :=
+  getInterpName_unterminated env file hph ho hs
+
+example : interpName [1, 2, 0x2f, 0x6c] ⟨PT_INTERP, 2, 0, 2, 2⟩ = none := by decide
+
+/-- a string offset no `seek` reaches -/
+theorem get_string_unreachable (file : Bytes) (st : Val) (toff off : Nat)
+    (h : st.getField "sh_offset" = .ok (.int toff)) (hp : 2 ^ 63 ≤ toff + off) :
+    getString file st off = .error .overflowError :=
+  getString_offset_overflow file off h hp
+
+/-! ## section in segment against the whole binutils macro
+
+  `macroFull64` (Spec/ContentsMacro.lean) is `ELF_SECTION_IN_SEGMENT_1 (sec, seg, 1, 1)` of binutils 2.40
+  with every clause, in unsigned 64-bit arithmetic.  `section_in_segment` implements its four condition
+  groups (segment type vs SHF_TLS; SHF_ALLOC vs PT_LOAD-like types; file extent; address extent — each
+  with the strict `≤ size - 1` comparison and the empty-segment wrap) and NOT
+    (a) `ELF_SECTION_SIZE`: a `.tbss` section (SHF_TLS, SHT_NOBITS) counts with size 0 outside PT_TLS,
+    (b) "No zero size sections at start or end of PT_DYNAMIC nor PT_NOTE".
+  `clausesInert g s` says (a) and (b) do not change the answer for the pair. -/
+
+/-- the whole macro in ideal arithmetic, where nothing wraps -/
+theorem macro_full_ideal (g : Seg) (s : Sec) (hfit : fits64 g s = true)
+    (hf : g.offset ≤ s.offset → s.offset - g.offset + s.size < 2 ^ 64)
+    (hv : g.vaddr ≤ s.addr → s.addr - g.vaddr + s.size < 2 ^ 64) :
+    macroFull64 g s = inSegmentFull g s :=
+  macroFull64_eq g s hfit hf hv
+
+/-- equality with the whole C macro, PARTIAL: under the no-overflow hypotheses and `clausesInert`.
+    Extends `in_segment_eq_C_macro_partial` (`plainCase → clausesInert`, and on `plainCase` the two
+    macro texts agree): it also covers `.tbss` sections wherever the size rule does not matter and
+    empty sections strictly inside PT_DYNAMIC / PT_NOTE segments.
+    Full statement (FALSE of the code, see the two theorems after the next):
+      `∀ g s, fits64 g s → no wrap → sectionInSegment … = .ok (macroFull64 g s)`. -/
+theorem in_segment_eq_C_macro_full_partial {decP decT : Nat → Val} (hP : PTypeNaming decP) (hT : NobitsNaming decT)
+    (ph sh : Val) (g : Seg) (s : Sec) (hph : IsPhdr decP ph g) (hsh : IsShdr decT sh s)
+    (hfit : fits64 g s = true) (hin : clausesInert g s = true)
+    (hf : g.offset ≤ s.offset → s.offset - g.offset + s.size < 2 ^ 64)
+    (hv : g.vaddr ≤ s.addr → s.addr - g.vaddr + s.size < 2 ^ 64) :
+    sectionInSegment shFlags ph sh = .ok (macroFull64 g s) := by
+  rw [macroFull64_eq g s hfit hf hv, ← (clausesInert_iff g s).2 hin]
+  exact sectionInSegment_eq hP hT hph hsh
+
+theorem plain_case_is_inert (g : Seg) (s : Sec) (h : plainCase g s = true) :
+    clausesInert g s = true ∧ macroFull64 g s = macro64 g s :=
+  ⟨plainCase_inert h, macroFull64_eq_macro64 g s h⟩
+
+-- non-vacuity beyond `plainCase`: a `.tbss` that fits its PT_LOAD with its real size; an empty section
+-- strictly inside a PT_NOTE segment
+example : plainCase ⟨PT_LOAD, 0x100, 0x1000, 0x40, 0x80⟩ ⟨8, 0x403, 0x1040, 0x140, 0x20, 1⟩ = false ∧
+    clausesInert ⟨PT_LOAD, 0x100, 0x1000, 0x40, 0x80⟩ ⟨8, 0x403, 0x1040, 0x140, 0x20, 1⟩ = true ∧
+    fits64 ⟨PT_LOAD, 0x100, 0x1000, 0x40, 0x80⟩ ⟨8, 0x403, 0x1040, 0x140, 0x20, 1⟩ = true := by decide
+example : plainCase ⟨PT_NOTE, 0x100, 0x1000, 0x40, 0x40⟩ ⟨1, 2, 0x1010, 0x110, 0, 1⟩ = false ∧
+    clausesInert ⟨PT_NOTE, 0x100, 0x1000, 0x40, 0x40⟩ ⟨1, 2, 0x1010, 0x110, 0, 1⟩ = true := by decide
+
+/-- the domain of the partial theorem is exact: where nothing wraps, the code's answer is the whole
+    macro's IF AND ONLY IF the two clauses are inert -/
+theorem in_segment_eq_C_macro_iff {decP decT : Nat → Val} (hP : PTypeNaming decP) (hT : NobitsNaming decT)
+    (ph sh : Val) (g : Seg) (s : Sec) (hph : IsPhdr decP ph g) (hsh : IsShdr decT sh s)
+    (hfit : fits64 g s = true)
+    (hf : g.offset ≤ s.offset → s.offset - g.offset + s.size < 2 ^ 64)
+    (hv : g.vaddr ≤ s.addr → s.addr - g.vaddr + s.size < 2 ^ 64) :
+    sectionInSegment shFlags ph sh = .ok (macroFull64 g s) ↔ clausesInert g s = true := by
+  rw [sectionInSegment_eq hP hT hph hsh, macroFull64_eq g s hfit hf hv, ← clausesInert_iff]
+  constructor
+  · intro h; exact Except.ok.inj h
+  · intro h; rw [h]
+
+/-- (a) is not implemented: a `.tbss` section larger than what is left of its PT_LOAD segment is inside
+    by the macro (it occupies no address space there) and outside by the code -/
+theorem in_segment_lacks_tbss_rule :
+    ∃ g s, fits64 g s = true ∧ tbssSpecial g s = true ∧ macroFull64 g s = true ∧ inSegmentStrict g s = false :=
+  ⟨⟨PT_LOAD, 0x100, 0x1000, 0x40, 0x40⟩, ⟨8, 0x403, 0x1030, 0x130, 0x20, 1⟩, by decide⟩
+
+/-- (b) is not implemented: an empty section at the very start of a PT_DYNAMIC (or PT_NOTE) segment is
+    outside by the macro and inside by the code -/
+theorem in_segment_lacks_empty_edge_clause :
+    ∃ g s, fits64 g s = true ∧ tbssSpecial g s = false ∧ macroFull64 g s = false ∧ inSegmentStrict g s = true :=
+  ⟨⟨PT_DYNAMIC, 0x100, 0x1000, 0x40, 0x40⟩, ⟨1, 3, 0x1000, 0x100, 0, 1⟩, by decide⟩
+
+/-! ## whole files: composition with C01
+
+  `Carries env d bytes`: `d` is well-formed with compressed sections admitted (`Spec.ElfDesc.wfZ`),
+  `bytes` is ANY byte string with `Layout d bytes` (every region of the description at its offset,
+  nothing else constrained), and `d.observe` is defined (C01's three hypotheses).  The model functions
+  `file…` (Model/ContentsFile.lean) are `ELFFile(BytesIO(bytes))` → `get_section(i)` / `get_segment(j)` →
+  accessor, instantiated with the Spec bundles (= the bundles of /repo: TieC01, TieC02).
+  `secOf` / `segOf` read the numeric header fields off the description.  The naming hypotheses are
+  discharged for /repo's tables by `file_naming`.  A hypothesis `offset + size < 2^63` holds of every
+  non-empty stored body in a byte string Python can hold (`stored_extent_reachable`). -/
+
+/-- every image the Spec assembler makes of a well-formed description carries it (non-vacuity of
+    `Carries`; the check evaluates `wfZ` and assembles on every generated description) -/
+theorem carries_assembled (env : Env) (d : ElfDesc) (tail : Nat) (bytes : Bytes) (obs : ElfObs)
+    (hwf : d.wfZ env = true) (h : d.assemble tail = some bytes) (ho : d.observe env = .ok obs) :
+    Carries env d bytes :=
+  carries_of_assemble hwf h ho
+
+/-- the naming hypotheses hold of the decoders /repo attaches to every well-formed description -/
+theorem file_naming (d : ElfDesc) (hwf : d.wfZ Model.elfEnv = true) :
+    PTypeNaming (decPOf Model.elfEnv d) ∧ NobitsNaming (decTOf Model.elfEnv d) ∧ ZlibNaming (decCOf Model.elfEnv) ∧
+    (∀ n, decTOf Model.elfEnv d n = .str "SHT_STRTAB" ↔ n = 3) ∧
+    (∀ n, decPOf Model.elfEnv d n = .str "PT_INTERP" ↔ n = PT_INTERP) := by
+  have hm := wfZ_mclass hwf
+  obtain ⟨h1, h2, h3⟩ := naming_holds d.mclass hm
+  exact ⟨h1, h2, h3, TieC02.strtab_naming _ (TieC02.tables_cover _ hm).2, TieC02.interp_naming _ (TieC02.tables_cover _ hm).1⟩
+
+theorem stored_extent_reachable (env : Env) (d : ElfDesc) (bytes : Bytes) (h : Carries env d bytes)
+    (i : Nat) (hi : i < d.sections.length) (hne : bodyOf d.sections[i] ≠ []) (hlen : bytes.length < 2 ^ 63) :
+    (secOf d.sections[i]).offset + (bodyOf d.sections[i]).length < 2 ^ 63 :=
+  stored_fits (layout_facts h.layout) (List.getElem_mem hi) hne hlen
+
+section wholeFile
+variable (zlib : Bytes → Nat → R Bytes) (env : Env) (d : ElfDesc) (bytes : Bytes) (h : Carries env d bytes)
+include h
+
+/-- `get_section(i).data()` of a section that is neither SHT_NOBITS nor flagged compressed is exactly
+    the bytes the description stores for it (= the file bytes of its extent); `data_size`,
+    `data_alignment` are the header's and `compressed` is false -/
+theorem file_data_raw (hT : NobitsNaming (decTOf env d)) (i : Nat) (hi : i < d.sections.length) (b : Bytes)
+    (hst : StoresPlain d.sections[i] b)
+    (hfit : (secOf d.sections[i]).offset + (secOf d.sections[i]).size < 2 ^ 63) :
+    fileSectionData env C01.specStructs C01.specMachineClass shFlags bytes zlib i = .ok b ∧
+    b = extent bytes (secOf d.sections[i]).offset (secOf d.sections[i]).size ∧
+    fileSectionMeta env C01.specStructs C01.specMachineClass shFlags bytes i
+      = .ok (false, .int (secOf d.sections[i]).size, .int (secOf d.sections[i]).addralign) := by
+  obtain ⟨f, X, hL⟩ := h.facts
+  rw [C01.specStructs_eq, C01.specMachineClass_eq]
+  obtain ⟨h1, h2, h3⟩ := file_plain zlib X hL hT hi hst hfit
+  refine ⟨h1, ?_, h3⟩
+  rw [h1] at h2; cases h2; rfl
+
+/-- SHT_NOBITS: a zero block of the declared size, wherever `sh_offset` points -/
+theorem file_data_nobits (hT : NobitsNaming (decTOf env d)) (i : Nat) (hi : i < d.sections.length)
+    (hnb : (secOf d.sections[i]).nobits = true) (hc : (secOf d.sections[i]).compressed = false)
+    (hs : (secOf d.sections[i]).size < 2 ^ 63) :
+    fileSectionData env C01.specStructs C01.specMachineClass shFlags bytes zlib i
+      = .ok (List.replicate (secOf d.sections[i]).size 0) ∧
+    fileSectionMeta env C01.specStructs C01.specMachineClass shFlags bytes i
+      = .ok (false, .int (secOf d.sections[i]).size, .int (secOf d.sections[i]).addralign) := by
+  obtain ⟨f, X, -⟩ := h.facts
+  rw [C01.specStructs_eq, C01.specMachineClass_eq]
+  exact file_nobits zlib X hT hi hnb hc hs
+
+/-- SHF_COMPRESSED, the compression header `ch` of the file's class followed by the stream `z`:
+    `compressed` is true, `data_size` / `data_alignment` are `ch_size` / `ch_addralign`; `data()` is the
+    fully inflated stream when the type is ELFCOMPRESS_ZLIB and its length is the declared `ch_size`,
+    ELFCompressionError when the length differs, and an error for any other compression type.
+    `hz`: zlib's `decompress(z, n)` returns the first `n` bytes of the inflated stream. -/
+theorem file_data_compressed (inflate : Bytes → Option Bytes) (hT : NobitsNaming (decTOf env d))
+    (hC : ZlibNaming (decCOf env)) (i : Nat) (hi : i < d.sections.length) (ch : Chdr) (z : Bytes)
+    (hst : StoresCompressed d.cls d.le d.sections[i] ch z)
+    (hfit : (secOf d.sections[i]).offset + (secOf d.sections[i]).size < 2 ^ 63)
+    (hw : ch.chSize + 1 < 2 ^ 63) (P : Bytes) (hP : inflate z = some P)
+    (hz : ∀ n, 0 < n → zlib z n = .ok (P.take n)) :
+    fileSectionMeta env C01.specStructs C01.specMachineClass shFlags bytes i
+      = .ok (true, .int ch.chSize, .int ch.chAlign) ∧
+    (fileSectionData env C01.specStructs C01.specMachineClass shFlags bytes zlib i).toOption = inflatedOf inflate ch z ∧
+    (ch.chType = ELFCOMPRESS_ZLIB → P.length = ch.chSize →
+      fileSectionData env C01.specStructs C01.specMachineClass shFlags bytes zlib i = .ok P) ∧
+    (ch.chType = ELFCOMPRESS_ZLIB → P.length ≠ ch.chSize →
+      fileSectionData env C01.specStructs C01.specMachineClass shFlags bytes zlib i = .error .elfCompressionError) ∧
+    (ch.chType ≠ ELFCOMPRESS_ZLIB →
+      fileSectionData env C01.specStructs C01.specMachineClass shFlags bytes zlib i = .error .elfCompressionError ∨
+      fileSectionData env C01.specStructs C01.specMachineClass shFlags bytes zlib i = .error .valueError) := by
+  obtain ⟨f, X, hL⟩ := h.facts
+  rw [C01.specStructs_eq, C01.specMachineClass_eq]
+  exact file_compressed zlib inflate X hL hT hC hi hst hfit hw P hP hz
+
+/-- ... a stream zlib rejects is rejected with zlib's error, and a declared size `decompress` cannot be
+    asked for (`ch_size + 1 ≥ 2^63`) with OverflowError -/
+theorem file_data_compressed_rejected (hT : NobitsNaming (decTOf env d))
+    (hC : ZlibNaming (decCOf env)) (i : Nat) (hi : i < d.sections.length) (ch : Chdr) (z : Bytes)
+    (hst : StoresCompressed d.cls d.le d.sections[i] ch z)
+    (hfit : (secOf d.sections[i]).offset + (secOf d.sections[i]).size < 2 ^ 63)
+    (hty : ch.chType = ELFCOMPRESS_ZLIB) :
+    (∀ e, ch.chSize + 1 < 2 ^ 63 → zlib z (ch.chSize + 1) = .error e →
+      fileSectionData env C01.specStructs C01.specMachineClass shFlags bytes zlib i = .error e) ∧
+    (2 ^ 63 ≤ ch.chSize + 1 →
+      fileSectionData env C01.specStructs C01.specMachineClass shFlags bytes zlib i = .error .overflowError) := by
+  obtain ⟨f, X, hL⟩ := h.facts
+  rw [C01.specStructs_eq, C01.specMachineClass_eq]
+  exact ⟨fun e hw hz => file_compressed_badstream zlib X hL hT hC hi hst hfit hty hw e hz,
+         fun hw => file_compressed_want_overflow zlib X hL hT hC hi hst hfit hty hw⟩
+
+/-- the error side for sections not flagged compressed, whole files: an extent `seek` / `read` / `* n`
+    cannot reach is an OverflowError -/
+theorem file_data_unreachable (hT : NobitsNaming (decTOf env d)) (i : Nat) (hi : i < d.sections.length)
+    (hc : (secOf d.sections[i]).compressed = false)
+    (hbad : ((secOf d.sections[i]).nobits = false ∧ 2 ^ 63 ≤ (secOf d.sections[i]).offset) ∨
+            ((secOf d.sections[i]).nobits = false ∧ (secOf d.sections[i]).offset < 2 ^ 63 ∧ 2 ^ 63 ≤ (secOf d.sections[i]).size) ∨
+            ((secOf d.sections[i]).nobits = true ∧ 2 ^ 63 ≤ (secOf d.sections[i]).size)) :
+    fileSectionData env C01.specStructs C01.specMachineClass shFlags bytes zlib i = .error .overflowError := by
+  obtain ⟨f, X, -⟩ := h.facts
+  rw [C01.specStructs_eq, C01.specMachineClass_eq]
+  obtain ⟨sh, hI, hD⟩ := fileSectionData_plain_bridge zlib X hi hc
+  rw [hD]
+  rcases hbad with ⟨h1, h2⟩ | ⟨h1, h2, h3⟩ | ⟨h1, h2⟩
+  · exact sectionData_raw_offset_overflow zlib f.S bytes hT hI h1 h2
+  · exact sectionData_raw_size_overflow zlib f.S bytes hT hI h1 h2 h3
+  · exact sectionData_nobits_overflow zlib f.S bytes hT hI h1 h2
+
+omit zlib in
+/-- `get_section(i).get_string(off)` on a string table: the NUL-terminated string at `off` of the table
+    the description stores, whatever its length -/
+theorem file_get_string_exact (i : Nat) (hi : i < d.sections.length)
+    (hk : decTOf env d (secOf d.sections[i]).shType = .str "SHT_STRTAB") (off : Nat) (str : Bytes)
+    (hp : (secOf d.sections[i]).offset + off < 2 ^ 63) (hs : stringAt (tableOf d.sections[i]) off = some str) :
+    fileGetString env C01.specStructs C01.specMachineClass bytes i off = .ok str := by
+  obtain ⟨f, X, hL⟩ := h.facts
+  rw [C01.specStructs_eq, C01.specMachineClass_eq]
+  exact file_get_string X hL hi hk hp hs
+
+omit zlib in
+/-- ... at ANY reachable offset of a string table: the bytes up to the first NUL from there in the file
+    (`''` when there is none), and OverflowError at an offset no `seek` reaches -/
+theorem file_get_string_any_offset (i : Nat) (hi : i < d.sections.length)
+    (hk : decTOf env d (secOf d.sections[i]).shType = .str "SHT_STRTAB") (off : Nat) :
+    ((secOf d.sections[i]).offset + off < 2 ^ 63 →
+      fileGetString env C01.specStructs C01.specMachineClass bytes i off
+        = .ok ((firstNul (bytes.drop ((secOf d.sections[i]).offset + off))).getD [])) ∧
+    (2 ^ 63 ≤ (secOf d.sections[i]).offset + off →
+      fileGetString env C01.specStructs C01.specMachineClass bytes i off = .error .overflowError) := by
+  obtain ⟨f, X, -⟩ := h.facts
+  rw [C01.specStructs_eq, C01.specMachineClass_eq]
+  exact ⟨fun hp => file_get_string_any X hi hk hp, fun hp => file_get_string_overflow X hi hk hp⟩
+
+omit zlib in
+/-- `get_segment(j).data()` is exactly the segment's file extent -/
+theorem file_segment_data_exact (j : Nat) (hj : j < d.segments.length)
+    (ho : (segOf d.segments[j]).offset < 2 ^ 63) (hs : (segOf d.segments[j]).filesz < 2 ^ 63) :
+    fileSegmentData env C01.specStructs C01.specMachineClass bytes j = .ok (segData bytes (segOf d.segments[j])) := by
+  obtain ⟨f, X, -⟩ := h.facts
+  rw [C01.specStructs_eq, C01.specMachineClass_eq]
+  exact file_segment_data X hj ho hs
+
+omit zlib in
+/-- ... the bytes the description stores there, when the extent lies inside a section body -/
+theorem file_segment_data_stored (j : Nat) (hj : j < d.segments.length) (i : Nat) (hi : i < d.sections.length) (k : Nat)
+    (hin : SegInBody (segOf d.segments[j]) d.sections[i] k)
+    (ho : (segOf d.segments[j]).offset < 2 ^ 63) (hs : (segOf d.segments[j]).filesz < 2 ^ 63) :
+    fileSegmentData env C01.specStructs C01.specMachineClass bytes j
+      = .ok (segBytes (segOf d.segments[j]) d.sections[i] k) := by
+  obtain ⟨f, X, hL⟩ := h.facts
+  rw [C01.specStructs_eq, C01.specMachineClass_eq, file_segment_data X hj ho hs,
+    segData_in_body hL (List.getElem_mem hi) hin]
+
+omit zlib in
+/-- ... and an extent no `seek` / `read` reaches is an OverflowError -/
+theorem file_segment_data_unreachable (j : Nat) (hj : j < d.segments.length)
+    (hbad : 2 ^ 63 ≤ (segOf d.segments[j]).offset ∨
+      ((segOf d.segments[j]).offset < 2 ^ 63 ∧ 2 ^ 63 ≤ (segOf d.segments[j]).filesz)) :
+    fileSegmentData env C01.specStructs C01.specMachineClass bytes j = .error .overflowError := by
+  obtain ⟨f, X, -⟩ := h.facts
+  rw [C01.specStructs_eq, C01.specMachineClass_eq]
+  obtain ⟨ph, hP, hD⟩ := fileSegmentData_bridge X hj
+  rw [hD]
+  exact segment_data_unreachable bytes ph _ hP hbad
+
+omit zlib in
+/-- `get_segment(j).get_interp_name()` on a PT_INTERP segment: the NUL-terminated string at the segment
+    start — the one the description stores there when the segment starts inside a section body -/
+theorem file_interp_name (j : Nat) (hj : j < d.segments.length)
+    (hk : decPOf env d (segOf d.segments[j]).ptype = .str "PT_INTERP")
+    (ho : (segOf d.segments[j]).offset < 2 ^ 63) (path : Bytes) :
+    (interpName bytes (segOf d.segments[j]) = some path →
+      fileInterpName env C01.specStructs C01.specMachineClass bytes j = .ok path) ∧
+    (∀ i (hi : i < d.sections.length) k, (segOf d.segments[j]).offset = (secOf d.sections[i]).offset + k →
+      firstNul ((bodyOf d.sections[i]).drop k) = some path →
+      fileInterpName env C01.specStructs C01.specMachineClass bytes j = .ok path) := by
+  obtain ⟨f, X, hL⟩ := h.facts
+  rw [C01.specStructs_eq, C01.specMachineClass_eq]
+  refine ⟨fun hs => file_interp X hj hk ho hs, fun i hi k hoff hp => ?_⟩
+  exact file_interp X hj hk ho (interpName_in_body hL (List.getElem_mem hi) hoff hp)
+
+omit zlib in
+/-- ... and a PT_INTERP segment at an offset `struct_parse` cannot seek to, or with no NUL between its
+    start and the end of the file, has no path: ELFParseError -/
+theorem file_interp_name_rejected (j : Nat) (hj : j < d.segments.length)
+    (hk : decPOf env d (segOf d.segments[j]).ptype = .str "PT_INTERP")
+    (hbad : 2 ^ 63 ≤ (segOf d.segments[j]).offset ∨
+      ((segOf d.segments[j]).offset < 2 ^ 63 ∧ interpName bytes (segOf d.segments[j]) = none)) :
+    fileInterpName env C01.specStructs C01.specMachineClass bytes j = .error .elfParseError := by
+  obtain ⟨f, X, -⟩ := h.facts
+  rw [C01.specStructs_eq, C01.specMachineClass_eq]
+  obtain ⟨ph, hP, hD⟩ := fileInterpName_bridge X hj hk
+  rw [hD]
+  rcases hbad with h1 | ⟨h1, h2⟩
+  · exact getInterpName_offset_overflow env bytes hP h1
+  · exact getInterpName_unterminated env bytes hP h1 h2
+
+omit zlib in
+/-- `address_offsets(start, size)`: in program-header order, the offsets given by exactly those PT_LOAD
+    segments of the description that wholly contain the range -/
+theorem file_addr_offsets (hP : PTypeNaming (decPOf env d)) (start size : Nat) :
+    fileAddressOffsets env C01.specStructs C01.specMachineClass bytes (start : Int) (size : Int)
+      = .ok ((addrOffsets (d.segments.map segOf) start size).map Int.ofNat) := by
+  obtain ⟨f, X, -⟩ := h.facts
+  rw [C01.specStructs_eq, C01.specMachineClass_eq]
+  exact file_address_offsets X hP start size
+
+omit zlib in
+/-- `get_segment(j).section_in_segment(get_section(i))` is the strict rule on the description's headers -/
+theorem file_in_segment_strict (hP : PTypeNaming (decPOf env d)) (hT : NobitsNaming (decTOf env d))
+    (j i : Nat) (hj : j < d.segments.length) (hi : i < d.sections.length) :
+    fileSectionInSegment env C01.specStructs C01.specMachineClass shFlags bytes j i
+      = .ok (inSegmentStrict (segOf d.segments[j]) (secOf d.sections[i])) := by
+  obtain ⟨f, X, -⟩ := h.facts
+  rw [C01.specStructs_eq, C01.specMachineClass_eq]
+  exact file_in_segment X hP hT hj hi
+
+end wholeFile
+
+/-! non-vacuity of the storage predicates (the whole-file hypotheses `wfZ` / `Layout` / `observe` are
+    C01's: `carries_assembled`; the check evaluates `wfZ`, assembles and observes every generated
+    description, and compares the real library against `Stores…`-derived expectations) -/
+
+private def exHdr (ty flags off size : Nat) : Fields :=
+  [("sh_type", .int ty), ("sh_flags", .int flags), ("sh_addr", .int 0), ("sh_offset", .int off), ("sh_size", .int size),
+   ("sh_link", .int 0), ("sh_info", .int 0), ("sh_addralign", .int 4), ("sh_entsize", .int 0)]
+
+example : StoresPlain ⟨[0x2e, 0x64], exHdr 1 3 96 3, some [1, 2, 3], 1⟩ [1, 2, 3] := by
+  refine ⟨by decide, by decide, by decide, by decide⟩
+example : StoresPlain ⟨[0x2e, 0x64], exHdr 1 3 96 2, some [1, 2, 3], 1⟩ [1, 2] := by
+  refine ⟨by decide, by decide, by decide, by decide⟩
+example : StoresCompressed 32 true ⟨[0x2e, 0x7a], exHdr 1 0x800 96 15, some (encChdr 32 true ⟨1, 5, 8⟩ ++ [0x78, 0x9c, 0x03]), 1⟩
+    ⟨1, 5, 8⟩ [0x78, 0x9c, 0x03] := by
+  refine ⟨by decide, by decide, by decide, rfl, by decide⟩
+example : stringAt (tableOf ⟨[0x2e, 0x73], exHdr 3 0 64 7, some [0, 0x61, 0x62, 0, 0x63, 0x64, 0], 1⟩) 4 = some [0x63, 0x64] := by
+  decide
+example : SegInBody ⟨PT_LOAD, 97, 0x1000, 2, 2⟩ ⟨[0x2e, 0x64], exHdr 1 3 96 3, some [1, 2, 3], 1⟩ 1 ∧
+    segBytes ⟨PT_LOAD, 97, 0x1000, 2, 2⟩ ⟨[0x2e, 0x64], exHdr 1 3 96 3, some [1, 2, 3], 1⟩ 1 = [2, 3] := by
+  refine ⟨⟨by decide, by decide⟩, by decide⟩
+example : inflatedOf (fun z => if z = [0x78, 0x9c, 0x03] then some [7, 7, 7, 7, 7] else none) ⟨1, 5, 8⟩ [0x78, 0x9c, 0x03]
+    = some [7, 7, 7, 7, 7] := by decide
 
 end PyElf.Props.C02
